@@ -460,10 +460,12 @@ def emit_rust(shapes):
         seen.add(rt)
         ss = 'Some(<%s as FlatSized>::SIZE)' % rt if is_sized(t) else 'None'
         d = 'Some(<%s>::default_in_place(b).map(|_| ()))' % rt if has_default(t) else 'None'
+        wd = 'Some(::flatty::FlatWrap::<%s, &mut [u8]>::default_in_place(b).map(|_| ()))' % rt if has_default(t) else 'None'
         out.append(f'''
 impl Probe for {rt} {{
     const STATIC_SIZE: Option<usize> = {ss};
     fn dflt(b: &mut [u8]) -> Option<Result<(), Error>> {{ let _ = &b; {d} }}
+    fn wrap_dflt(b: &mut [u8]) -> Option<Result<(), Error>> {{ let _ = &b; {wd} }}
 }}
 ''')
     out.append('pub const SHAPES: &[&str] = &[\n' + ''.join('    "%s %s",\n' % (sid, sexp(t)) for sid, t, _ in tops) + '];\n')
